@@ -547,7 +547,7 @@ def judge(ctx, label, batches, stats_all):
     d = ctx.sub("judge-" + label)
     path = os.path.join(d, "batches.ndjson")
     tlc.write_ndjson(path, [b.record(stats_all or k == 0) for k, b in enumerate(batches)])
-    res = tlc.run_tlc("FactoryJudge", JUDGE_CFG, d, env={"BATCHES": path}, timeout=3000, workers=8 if ctx.quick else 16)
+    res = tlc.run_tlc("FactoryJudge", JUDGE_CFG, d, env={"BATCHES": path}, timeout=3000)
     if res.error or res.violated:
         raise MachineryError("FactoryJudge failed: %s %s" % (res.violated, res.error))
     expected = sum(len(b.reqs) + 1 for b in batches)
